@@ -26,6 +26,10 @@ class SrcError(Exception):
     pass
 
 
+class _Interrupt(BaseException):
+    pass
+
+
 class WorkError(Exception):
     def __init__(self, i):
         super().__init__(i)
@@ -79,7 +83,7 @@ def gen_case(rng: random.Random, tier: str, bias: str = ''):
                      ('pct', 2, 300, ep), ('pct', 3, 300, ep)])
     return dict(kind=kind, n=n, src=src, cap=cap, conc=conc, rexc=rexc, retx=rng.random() < 0.4,
                 pre=pre, pf=pf, re=re, rv=rv, again=(kind == 'parmap' and rng.random() < 0.5), stop_after=stop_after,
-                stop_mode=rng.choice(['close', 'close', 'del']), dur=dur, chooser=list(ch),
+                stop_mode=rng.choice(['close', 'close', 'del', 'throw']), dur=dur, chooser=list(ch),
                 seed=rng.randrange(1 << 30))
 
 
@@ -265,6 +269,13 @@ def run_case(case):
                     log(('close',))
                     if case['stop_mode'] == 'close':
                         gen.close()
+                    elif case['stop_mode'] == 'throw':
+                        # the consumer is interrupted at the yield by something that is not an Exception
+                        # (Ctrl-C, Thread.throw, cancellation): the generator must wind down all the same
+                        try:
+                            gen.throw(_Interrupt())
+                        except _Interrupt:
+                            pass
                     else:
                         box[0] = None
                         gen = None
